@@ -31,6 +31,14 @@ CHECKS = {
    text="Explicit-state search on the *order* grammar: a class of 2-3 identical pending workloads in one leaf queue in every priority/creation-order sequence (5 shapes incl. gang, fraction, non-preemptible) x 5 competitor sets in other queues x flat and 2-level queue trees x capacity for fewer than all, under map-iteration seeds 0-3 (heap order / reorder paths), signatures on, spread. Oracle from world objects + decisions made during the allocate action: no comparable pair with the lower-priority (or younger) one placed and the higher (older) one unplaced.",
    note="Trusted: as C01; Go map order is owned through the O-maporder overlay (small maps iterate in insertion order rotated by the seed).",
    technique="explicit-state model checking of the implementation (BFS over canonical cluster worlds, real scheduler cycle as transition relation, map-order seeds enumerated)"),
+ "C10": dict(engine="clustermc", cat="model_checking", ref="§5 C10",
+   text="Bounded-exhaustive enumeration of malformed / adversarial API object graphs, each run through ONE real scheduler cycle: every parent function on 3 queues over {root,q0,q1,q2,missing} (cycles, self-parents, orphans) x 2 workload placements; every sub-group parent graph on 3 sub-groups x minMember {-1,0,1,5}; duplicate / case-differing sub-group names, missing queues; 3 GPU annotations x 29 malformed literals x {pending,running}; 16 malformed nodes x 4 workloads; dangling references; each in a roomy variant (the untouched healthy workload must be bound) and a tight variant (reclaim/preempt run on the malformed objects; must complete). Worker processes with a CPU-time watchdog (10 s) and ulimit -v; a dead worker is attributed to the in-flight input and restarted after it.",
+   note="Trusted: fake clientsets, the per-input CPU-time budget (not wall clock), one cycle per input with default actions/plugins.",
+   technique="bounded-exhaustive state enumeration with the real scheduler cycle as the transition (termination/panic oracle under resource limits)"),
+ "C12": dict(engine="clustermc", cat="model_checking", ref="§5 C12",
+   text="Scheduler half of the hand-off, explicit-state: pods in every BindRequest progress state (not started, Failed k times with BackoffLimit nil/0/1/3, pod bound but request not updated, Succeeded, selected node deleted) x 5 shapes (whole, 2-GPU, fraction, multi-fraction, cpu) x competitors for the same capacity; BFS depth 3 over real cycles and environment events (bind completes / fails again, pod terminates, node deleted). Oracle: with the pod charged to its selected node (groups included) the C01/C02 inequalities hold in every later cycle; requests that are terminally failed or name a deleted node are gone after the next cycle and their pod is bound/nominated again when it fits. Binder half (attempt count persisted, <= BackoffLimit retries): see level_note.",
+   note="Trusted: as C01. The binder half of the statement (retries and persisted attempt count in BindRequestReconciler.UpdateStatus) is decided by the C11/C17 binder wiring once integrated; until then the environment event bindFail models a failed attempt.",
+   technique="explicit-state model checking of the implementation (BFS over canonical cluster worlds, real scheduler cycle as transition relation)"),
 }
 
 NOT_APPLICABLE = []
